@@ -7,6 +7,8 @@ import (
 	"math/rand"
 	"sort"
 	"strings"
+	"sync"
+	"sync/atomic"
 	"time"
 
 	proto "github.com/kubewharf/kubebrain-client/api/v2rpc"
@@ -27,7 +29,7 @@ func init() {
 	Registry["C16"] = &Prop{
 		Plan: func(tier string) Plan {
 			return Plan{Level: "exploration", NCases: pick(tier, 96, 2400), Batch: 6, CaseTimeout: 120,
-				Rule: "one case = a PRNG sequential history of 40-150 etcd requests sent to the real etcd.RPCServer handlers: the four transaction shapes Kubernetes issues (create-if-absent, guarded update, guarded delete, unguarded delete) with correct / stale / zero expected revisions over existing, missing and deleted keys; Range point reads and range reads with all bounds, limits and old revisions, count-only; one prefix watch with prev_kv; interleaved with structurally valid but unsupported transactions (two compares, VALUE/CREATE/VERSION targets, !=,<,> results, two puts, put+delete, nested txn, prev_kv/ignore_* flags, range deletes, compare/put/delete naming different keys, range compares). " +
+				Rule: "one case = a PRNG sequential history of 40-150 etcd requests sent to the real etcd.RPCServer handlers: the four transaction shapes Kubernetes issues (create-if-absent, guarded update, guarded delete, unguarded delete) with correct / stale / zero expected revisions over existing, missing and deleted keys; Range point reads and range reads with all bounds, limits and old revisions, count-only; one prefix watch with prev_kv; every 6th case instead 4 concurrent etcd clients on one key (memkv/Badger) whose failed compares must never return the compared revision; the sequential cases are interleaved with structurally valid but unsupported transactions (two compares, VALUE/CREATE/VERSION targets, !=,<,> results, two puts, put+delete, nested txn, prev_kv/ignore_* flags, range deletes, compare/put/delete naming different keys, range compares). " +
 					"oracle = etcd-semantics reference (MVCC map; adopts the response revision on success): success flag, failure-branch kv, mod revisions, order, count, more, watch PUT/DELETE with prev_kv; unsupported => error AND unchanged state (full range equal, no event). " +
 					"non-trivial = history with >=1 failed guarded write returning the current kv, >=1 zero-revision guarded request, >=1 limited range cut short and >=3 unsupported shapes; distinct by outcome vector",
 				Assumptions: []string{"EnableEtcdCompatibility is on (count is a stub otherwise)", "only the fields the property names are compared (not the op type of success-branch responses)"},
@@ -387,8 +389,92 @@ func (e *etcdRig) fullState() string {
 	return kvStr(l.Kvs)
 }
 
+// runC16Concurrent: concurrent etcd clients on one key. Under etcd semantics compare and failure-branch read are
+// one atomic step, so a failed guarded transaction can never return a key-value whose mod revision equals the
+// revision it compared with (revisions only grow). Run on the engines whose failed compare is a real compare
+// (memkv, Badger); on TiKV a write conflict is mapped to a failed compare and the re-read may precede the
+// conflicting commit, which is stated as a limitation in DESIGN.md.
+func runC16Concurrent(c *harness.Case) {
+	r := c.Rng
+	kind := []string{"memkv", "badger"}[r.Intn(2)]
+	n, eng, ok := newSeqNode(c, kind, backend.Config{EnableEtcdCompatibility: true})
+	if !ok {
+		return
+	}
+	defer eng.Close()
+	defer n.Retire()
+	srv := etcd.New(n.B, n.Metrics, harness.NewPeers(true))
+	key := harness.Prefix + "/conc"
+	var mu sync.Mutex
+	var hist []string
+	var wg sync.WaitGroup
+	nFail := int64(0)
+	for ci := 0; ci < 4; ci++ {
+		wg.Add(1)
+		rr := newRand(r.Int63())
+		go func(ci int) {
+			defer wg.Done()
+			var last int64
+			for i := 0; i < 60; i++ {
+				var req *etcdserverpb.TxnRequest
+				kindReq := ""
+				switch x := rr.Intn(10); {
+				case x < 3:
+					req, kindReq = etcdCreate(key, []byte(fmt.Sprintf("c%d-%d", ci, i))), "create"
+				case x < 7:
+					req, kindReq = etcdUpdate(key, []byte(fmt.Sprintf("c%d-%d", ci, i)), last), "update"
+				default:
+					req, kindReq = etcdGuardedDelete(key, last), "gdelete"
+				}
+				cmpRev := last
+				resp, err := srv.Txn(context.Background(), req)
+				if err != nil {
+					continue
+				}
+				kvs, _ := rangeKvs(resp)
+				line := fmt.Sprintf("c%d %s(mod=%d) -> succeeded=%v header=%d kvs=%s", ci, kindReq, cmpRev, resp.Succeeded, resp.Header.GetRevision(), kvDesc(kvs))
+				mu.Lock()
+				hist = append(hist, line)
+				mu.Unlock()
+				if resp.Succeeded {
+					last = resp.Header.GetRevision()
+					if kindReq == "gdelete" {
+						last = 0
+					}
+					continue
+				}
+				atomic.AddInt64(&nFail, 1)
+				if kindReq != "create" && cmpRev != 0 && len(kvs) == 1 && kvs[0].ModRevision == cmpRev {
+					mu.Lock()
+					h := append([]string(nil), hist...)
+					mu.Unlock()
+					if len(h) > 80 {
+						h = h[len(h)-80:]
+					}
+					c.Violatef("C16 failure-branch-kv-at-compared-revision shape="+kindReq+" concurrent", map[string]interface{}{"engine": kind, "requests_tail": h},
+						"%s: the transaction failed its compare on mod revision %d, yet the key-value in its failure branch has exactly that mod revision; under etcd semantics compare and failure-branch read are atomic", line, cmpRev)
+				}
+				if len(kvs) == 1 {
+					last = kvs[0].ModRevision
+				} else {
+					last = 0
+				}
+			}
+		}(ci)
+	}
+	wg.Wait()
+	c.Stat("concurrent_etcd_requests", int64(len(hist)))
+	c.Stat("concurrent_failed_compares", atomic.LoadInt64(&nFail))
+	c.AddSet("engines", "concurrent-"+kind)
+	c.Fingerprint(atomic.LoadInt64(&nFail) > 10, "concurrent", kind, c.Index)
+}
+
 func runC16(c *harness.Case) {
 	r := c.Rng
+	if c.Index%6 == 5 {
+		runC16Concurrent(c)
+		return
+	}
 	kind := c16Engines[c.Index%len(c16Engines)]
 	n, eng, ok := newSeqNode(c, kind, backend.Config{EnableEtcdCompatibility: true})
 	if !ok {
